@@ -30,7 +30,7 @@ import os
 
 import numpy as np
 
-from .algos import base_cfg, final_digests, finish, guarded, interpose, prefill, routine
+from .algos import NOISE_CLIP, TARGET_POLICY_NOISE, base_cfg, expl_noise, final_digests, finish, guarded, interpose, live_action_probe, prefill, routine
 from .envs import Recorder, ScriptEnv, decode_obs
 
 _CUR = {"rec": None, "created": None}
@@ -74,6 +74,9 @@ def _probed(kind):
                 cb = _CUR["created"]
                 if cb is not None:
                     cb(embedding, actor)
+                cb = _CUR.get("created_policy")
+                if cb is not None:
+                    cb(self)
 
             def __call__(self, observation):
                 _probe(observation)
@@ -162,6 +165,7 @@ def _run(rec, call):
         jax.effects_barrier()
         _CUR["rec"] = None
         _CUR["created"] = None
+        _CUR["created_policy"] = None
 
 
 def _limit(sc, kwargs):
@@ -268,9 +272,16 @@ def _td7(name, sc, use_checkpoints):
             w.add(an, act)
 
     _CUR["created"] = created
+    # the acting policy is the FIRST SALE policy the routine builds (td7.py 710): its live action at the observation the
+    # environment returned last is logged with every step (C10 ExplorationNoiseScale)
+    sale = []
+    _CUR["created_policy"] = sale.append
+    from rl_blox.blox.embedding.sale import DeterministicSALEPolicy
+
+    env.exec_probe = live_action_probe(lambda: sale[0] if sale else None, DeterministicSALEPolicy.__call__)
     pd, td = sc.get("policy_delay", 2), sc.get("target_delay", 3)
-    kwargs = dict(seed=seed, total_timesteps=sc["budget"], gamma=0.5, target_delay=td, policy_delay=pd, exploration_noise=0.5,
-                  target_policy_noise=0.25, noise_clip=0.5, use_checkpoints=use_checkpoints, max_episodes_when_checkpointing=sc.get("ckpt_episodes", 2),
+    kwargs = dict(seed=seed, total_timesteps=sc["budget"], gamma=0.5, target_delay=td, policy_delay=pd, exploration_noise=expl_noise(sc),
+                  target_policy_noise=TARGET_POLICY_NOISE, noise_clip=NOISE_CLIP, use_checkpoints=use_checkpoints, max_episodes_when_checkpointing=sc.get("ckpt_episodes", 2),
                   steps_before_checkpointing=sc.get("ckpt_after", 4), reset_weight=0.9, batch_size=sc["batch"], learning_starts=warm, replay_buffer=buf,
                   actor_target=atgt, critic_target=ctgt, logger=logger, global_step=start, progress_bar=False)
     _limit(sc, kwargs)
@@ -289,7 +300,7 @@ def _td7(name, sc, use_checkpoints):
                  dict(comps=["policy_target", "q_target", "fixed_embedding"], counter="iter", mod=td, rem=0, after=warm)]
         rules += [dict(comps=["fixed_embedding_target"], counter="iter", mod=_BIG, rem=k, after=warm) for k in later]
     cfg = base_cfg(name, sc, warmlearn=warm, warmact=warm, explore_only_in_warmup=True, policy_probe=True, ret_applicable=True, ulpk=0,
-                   trained=["embedding", "q", "policy"], targets=targets, segment="sample", rules=rules,
+                   trained=["embedding", "q", "policy"], targets=targets, segment="sample", rules=rules, expl_noise8=int(round(8 * kwargs["exploration_noise"])),
                    # coordinator: TD7's evaluation checkpoint is (fixed embedding, actor), copied together
                    copy_groups=[[["actor_checkpoint", "policy"], ["fixed_embedding_checkpoint", "fixed_embedding"]]] if use_checkpoints else [])
     ret = None if res is None else res.global_step
@@ -344,8 +355,11 @@ def run_mrq(sc):
     for k, v in mods.items():
         w.add(k, v)
     td = sc.get("target_delay", 3)  # coordinator: 3, so that an epoch counter that is off by 2 shows
-    kwargs = dict(seed=seed, total_timesteps=sc["budget"], gamma=0.5, target_delay=td, batch_size=sc["batch"], exploration_noise=0.5,
-                  target_policy_noise=0.25, noise_clip=0.5, learning_starts=warm, encoder_horizon=eh, q_horizon=qh, replay_buffer=buf,
+    from rl_blox.blox.embedding.model_based_encoder import DeterministicPolicyWithEncoder
+
+    env.exec_probe = live_action_probe(lambda: pwe, DeterministicPolicyWithEncoder.__call__)
+    kwargs = dict(seed=seed, total_timesteps=sc["budget"], gamma=0.5, target_delay=td, batch_size=sc["batch"], exploration_noise=expl_noise(sc),
+                  target_policy_noise=TARGET_POLICY_NOISE, noise_clip=NOISE_CLIP, learning_starts=warm, encoder_horizon=eh, q_horizon=qh, replay_buffer=buf,
                   policy_with_encoder_target=ptgt, q_target=qtgt, logger=logger, global_step=sc.get("start", 0), progress_bar=False)
     _limit(sc, kwargs)
     res, err = _run(rec, lambda: mrq.train_mrq(env, pwe, eopt, popt, q, qopt, bins, **kwargs))
@@ -356,6 +370,6 @@ def run_mrq(sc):
     # encoder_target (half of policy_with_encoder_target) is watched but not ruled: its first due copy meets an untrained encoder
     cfg = base_cfg("mrq", sc, warmlearn=warm, warmact=warm, explore_only_in_warmup=True, policy_probe=True, ret_applicable=True, ulpk=0,
                    trained=["policy_with_encoder", "encoder", "policy", "q"], targets=["policy_with_encoder_target", "encoder_target", "q_target"],
-                   segment="add", rules=rules)
+                   segment="add", rules=rules, expl_noise8=int(round(8 * kwargs["exploration_noise"])))
     ret = None if res is None else res.global_step
     return finish(rec, "mrq", sc, cfg, returned=ret, final=final_digests(**mods), error=_close(w, err), result=res)
